@@ -9,6 +9,10 @@ STYLE_STRINGS = strcorpus.ALL_STYLE_STRINGS
 BAD_STYLES = ['snake', 'Snake_Case', 'camelcase', 'PASCALCASE', 'kebab case', '', 'train-case', 'SCREAMING_KEBAB_CASE', 'Title Case', 'lowerCase']
 DICT = textgen.DICT_IDENTS + ['HTTPSConnection', 'getHTTPResponseCode', 'a1B2c3', 'ABc', 'AbC', 'aBC', 'A_B', 'a__b', '_lead', 'trail_', '__dunder__',
                               'X1Y2', 'IPv6Addr', 'Iso8601', 'v2', 'V2Beta3', 'UTF8String', 'macOS', 'iPhone', 'NaN', 'Zzz9_9zzZ']
+# every ASCII letter in first position (lower and upper case), and after a leading underscore: mode B goes through the
+# attribute-collection code, where an identifier-level rewrite would sit
+import string
+DICT += [c + 'elAy9' for c in string.ascii_lowercase] + [c + 'x_' + c.lower() for c in string.ascii_uppercase] + ['_' + c + 'q' for c in 'rRzZ09']
 RUST_KEYWORDS = {'as', 'do', 'fn', 'if', 'in', 'Self', 'self', 'box', 'dyn', 'for', 'let', 'mod', 'mut', 'pub', 'ref', 'try', 'use', 'abstract', 'a', 'b'}
 
 
